@@ -67,6 +67,11 @@
      IoHW5   120                                            handle_close             [DHandleClose]
      handle_close 309-321 is ONE step: W connected := False (+ total_outbufs_len := 0, and
              wasyncore.dispatcher.close: connected := False again, del_channel, socket.close).
+     turn_end: `while map: poll(...)`; poll's `list(map.items())` is taken in the same block as
+             the last operation of the previous turn: a channel that has left the map by then
+             is not polled again (IoDead); one that leaves it later (a worker running
+             handle_close, F18) is still asked readable()/writable() in this turn, and skipped
+             after select (`map.get(fd) is None`).
      IoDead  the channel has left the map.
 
    Worker w (task.py handler_thread 66-84, channel.py service 419-516):
@@ -297,7 +302,8 @@ Definition is_free (s : state) : bool := match rlock s with None => true | Some 
 
 (* where the poll turn goes on after the read phase: poll's `for fd in w: obj = map.get(fd)`
    skips a channel that has left the map; handle_write_event otherwise, if select said so *)
-Definition after_read (s : state) : iopc := if inmap s && wr s then IoHW0 else IoTop.
+Definition turn_end (s : state) : iopc := if inmap s then IoTop else IoDead.
+Definition after_read (s : state) : iopc := if inmap s && wr s then IoHW0 else turn_end s.
 
 (* ---- the I/O thread ------------------------------------------------------------- *)
 Definition step_io (s : state) (e : ioenv) : option (state * list label) :=
@@ -315,9 +321,7 @@ Definition step_io (s : state) (e : ioenv) : option (state * list label) :=
       else Some (set_io s (mret s), [])
   (* readable() *)
   | IoTop, ENone =>
-      if inmap s then
-        if wc s then Some (set_io (set_rv s false) IoW1, []) else Some (set_io s IoR2, [])
-      else Some (set_io s IoDead, [])
+      if wc s then Some (set_io (set_rv s false) IoW1, []) else Some (set_io s IoR2, [])
   | IoR2, ENone =>
       if cwf s then Some (set_io (set_rv s false) IoW1, []) else Some (set_io s IoR3, [])
   | IoR3, ENone =>
@@ -380,9 +384,9 @@ Definition step_io (s : state) (e : ioenv) : option (state * list label) :=
   | IoHW1b, ELen n => if Nat.eqb n 0 then Some (set_io s IoHW2, []) else Some (set_io s IoHW4, [])
   | IoHW2, ENone => Some (set_io (set_cwf s false) IoHW3, [])
   | IoHW3, ENone => Some (set_io (decide (set_wc s true) DFlushed) IoHW4, [LDecide DFlushed])
-  | IoHW4, ENone => if wc s then Some (set_io s IoHW5, []) else Some (set_io s IoTop, [])
+  | IoHW4, ENone => if wc s then Some (set_io s IoHW5, []) else Some (set_io s (turn_end s), [])
   | IoHW5, ENone =>
-      Some (set_io (decide (handle_close s) DHandleClose) IoTop, [LDecide DHandleClose])
+      Some (set_io (decide (handle_close s) DHandleClose) IoDead, [LDecide DHandleClose])
   | _, _ => None
   end.
 
